@@ -382,10 +382,10 @@ def r6(ctx, prog):
 
 def run(ctx):
     prog = extract(scope_units())
-    r1(ctx, prog)
-    r2(ctx, prog)
-    r3(ctx, prog)
-    r4(ctx, prog)
-    r5(ctx, prog)
-    r6(ctx, prog)
+    ctx.guard(r1, ctx, prog)
+    ctx.guard(r2, ctx, prog)
+    ctx.guard(r3, ctx, prog)
+    ctx.guard(r4, ctx, prog)
+    ctx.guard(r5, ctx, prog)
+    ctx.guard(r6, ctx, prog)
     return prog
